@@ -191,6 +191,10 @@ def diff_fields(left, right):
     return sorted(set(found))
 
 
+def diff_count(left, right):
+    return sum(1 for a, b in zip(left, right) for k in range(1, len(a)) if a[k] != b[k]) + abs(len(left) - len(right))
+
+
 def real_invariants(snap):
     """The invariant list of the property evaluated on the read-back alone (no model)."""
     bad = []
@@ -256,9 +260,13 @@ class Case:
     # ------------------------------------------------------------------ helpers
     def fail(self, key, what):
         registry = gport.Subscription._PORTS  # pylint: disable=protected-access
-        if key.split('-')[0] in ('state', 'failed', 'invariant', 'nonmutating', 'copy', 'release') and (
-            'worker-input' in what or 'Apply/Train collision' in what
-        ) and any(isinstance(k, atomic.Future) for k in list(registry)):
+        ghosts = [k for k in list(registry) if isinstance(k, atomic.Future)]
+        family = key.split('-')[0]
+        if ghosts and (
+            (family in ('state', 'failed', 'invariant', 'nonmutating', 'copy', 'release') and 'worker-input' in what)
+            or (family in ('accepted', 'partial') and any(
+                isinstance(n, atomic.Worker) and any(g == n for g in ghosts) for n in self.real.nodes))
+        ):
             # Node.__eq__ makes a Future equal to any worker with the same outputs: once a Future is a registry key
             # (only a refused future[i].publish(future, ...) does that) workers resolve to the Future's entry
             key, what = 'registry-aliased-worker-to-future', what + ' [a Future is a key of Subscription._PORTS]'
@@ -441,7 +449,7 @@ class Case:
             status = 'refused'
         elif status == 'topo':
             self.stats['topo'] += 1
-            self.messages.add(outcome[1].split(' near ')[0].split(' - ')[0].split(':')[0][:40])
+            self.messages.add(outcome[1].split(' near ')[0].split(' - ')[0].split(':')[0].split('[')[0].split('(')[0][:40])
             status = 'refused'
         else:
             self.stats['ok'] += 1
@@ -527,10 +535,6 @@ class Case:
             return True
         # ---------------- refused
         if forbidden_at is not None:
-            if outcome[0] == 'exc':
-                culprit = steps[forbidden_at]
-                return self.fail(f'crashed-{why[0]}-{self.route([culprit])}',
-                                 f'{call} (link {culprit} breaks {why}) raised {outcome[1]} instead of the topology error')
             self.stats['forbidden_refused'] += 1
         else:
             self.stats['open_refused'] += 1
@@ -541,17 +545,29 @@ class Case:
             culprit = steps[forbidden_at]  # the forbidden link was made, a later step of the composite call raised
             return self.fail(f'accepted-{why[0]}-{self.route([culprit])}',
                              f'{call} made link {culprit} although it breaks {why} (a later step raised {outcome[1]!r})')
+        everything = candidates
         candidates = candidates[: limit + 1]
+        best = min(range(len(everything)), key=lambda j: (diff_count(everything[j], observed), j))
+        if forbidden_at is not None and outcome[0] == 'exc' and (
+            primitive or forbidden_at == len(steps) - 1 or best <= limit
+        ):  # the forbidden link itself crashed (otherwise: it was made and a later step of the composite call crashed)
+            culprit = steps[forbidden_at]
+            return self.fail(f'crashed-{why[0]}-{self.route([culprit])}',
+                             f'{call} (link {culprit} breaks {why}) raised {outcome[1]} instead of the topology error')
         if match is None:
-            fields = min((diff_fields(state, observed) for state in candidates), key=len)
+            fields = diff_fields(min(candidates, key=lambda state: diff_count(state, observed)), observed)
             if touches and all(f.startswith('future') for f in fields):
                 key = 'failed-call-left-future-residue'
             elif touches and set(fields) <= {'future-input', 'future-output', 'worker-output'}:
                 key = 'failed-call-partial-collapse'
+            elif forbidden_at is not None and forbidden_at < len(steps) - 1 and best > limit:
+                culprit = steps[forbidden_at]
+                return self.fail(f'accepted-{why[0]}-{self.route([culprit])}',
+                                 f'{call} made link {culprit} although it breaks {why} (a later step raised {outcome[1]!r})')
             else:
                 key = f'failed-{label}-changed-' + '+'.join(fields)
             return self.fail(key, f'{call} raised {outcome[1]!r} but changed {fields}')
-        if match > 0 and forbidden_at is not None:
+        if match > 0 and match == forbidden_at:  # (a smaller prefix means an earlier open step ended the call)
             return self.fail(f'partial-{label}', f'{call} raised {outcome[1]!r} (link {steps[forbidden_at]} breaks {why}) '
                                                 f'but the first {match} link(s) stayed')
         model.links = states[match]
